@@ -474,3 +474,7 @@ impl<'a> ResolvedValueSet<'a> {
         self.resolved.insert(id);
     }
 }
+
+#[cfg(kani)]
+#[path = "/verif/kani/rten/planner.rs"]
+mod verif_kani;
